@@ -97,14 +97,10 @@ func (p *page) apply(c sjs.Call) {
 	case "showCursor":
 		p.cursor = [2]int{argInt(c.Args[0]), argInt(c.Args[1])}
 	case "resize":
+		// (webfiles/tcell.js: a resize allocates a new, blank grid - whatever
+		// was on the page is gone until it is drawn again)
 		w, h := argInt(c.Args[0]), argInt(c.Args[1])
-		n := make([]pcell, w*h)
-		for y := 0; y < h && y < p.h; y++ {
-			for x := 0; x < w && x < p.w; x++ {
-				n[y*w+x] = p.cells[y*p.w+x]
-			}
-		}
-		p.cells, p.w, p.h = n, w, h
+		p.cells, p.w, p.h = make([]pcell, w*h), w, h
 	case "setTitle":
 		p.title, _ = c.Args[0].(string)
 	case "beep":
@@ -510,8 +506,15 @@ func runDrawHistory(t *rapid.T) {
 				if o.W != w.m.W || o.H != w.m.H {
 					w.scr.SetSize(o.W, o.H)
 					w.m.Resize(o.W, o.H)
-					w.scr.Sync()
-					w.afterShow("Sync after SetSize", true)
+					// the page is blank after a resize: a Show has to bring
+					// every cell back, not only a Sync
+					if (o.W+o.H)%2 == 0 {
+						w.scr.Show()
+						w.afterShow("Show after SetSize", true)
+					} else {
+						w.scr.Sync()
+						w.afterShow("Sync after SetSize", true)
+					}
 				}
 			case "show":
 				w.scr.Show()
